@@ -171,7 +171,8 @@ class Model:
             split_conditional_expressions(self.modules)
             from .normalise import strip_diagnostics
             nd = strip_diagnostics(self.modules)
-            self.inlined = specialise_fresh_factories(self.modules) + nest_lifted_closures(self.modules) + inline_fresh_helpers(self.modules)
+            from .normalise import inline_tail_delegations
+            self.inlined = specialise_fresh_factories(self.modules) + inline_tail_delegations(self.modules) + nest_lifted_closures(self.modules) + inline_fresh_helpers(self.modules)
             from .normalise import propagate_attribute_aliases, unroll_literal_loops
             self.inlined += unroll_literal_loops(self.modules)
             self.inlined += propagate_attribute_aliases(self.modules)
